@@ -172,6 +172,20 @@ impl Prop for C03 {
         let mut conv = gen_conv(g, &opts);
         let contradiction = if g.chance(1, 5) { make_contradiction(g, &mut conv) } else { None };
         conv.forget_on_refusal = contradiction.is_some();
+        if contradiction.is_some() {
+            // one kind of refusal per case: no refusable offers next to a shape contradiction
+            for a in conv.actions.iter_mut() {
+                if let Action::Result(p) = a {
+                    for st in p.steps.iter_mut() {
+                        if let Step::Set { rows, .. } = st {
+                            for r in rows.iter_mut() {
+                                r.offers.clear();
+                            }
+                        }
+                    }
+                }
+            }
+        }
         let (bytes, ends, _) = client_stream(&conv);
         conv.sched = gen_schedule(g, bytes.len(), &ends);
         Case { conv, contradiction, abandoned_row: false }
